@@ -41,6 +41,7 @@ def run(tier):
         raise MachineryError("TraceClassifier consumed %d of %d records" % (tres.distinct // 2, len(keep)))
     run.add_model(tres, "TraceClassifier(C17): %d classifications" % len(keep))
     run.traces(len(keep))
+    clsrun.region_layer(run, keep, d, lambda r: -1)
     for tid, clause in tres.printed("FAIL"):
         r = keep[tid - 1]
         if clause.startswith("DRIFT"):
